@@ -21,6 +21,7 @@ mod c03_kernels;
 mod c05_total;
 #[cfg(any(kani, desert_verif_hooks))]
 mod c06_regions;
+mod c09_dedup;
 mod c10_refs;
 mod c12_containers;
 mod c13_enums;
